@@ -487,19 +487,17 @@ def load_rebuilds(ctx, r, loaders, cbs):
     A = ctx.anchors
     # (a) in the loader: every key that is loaded bumps the refcount of its hash once
     loader_refcounts(ctx, r, loaders)
-    # (b) in the load root: loader -> recompute stats -> replay on every path
-    stats_bodies = set()
-    stats_field = A.get("STATS")
-    for w in ctx.world.field_writes:
-        if (w.rv["k"] == "use" and w.field[1] in ("types::CasStats",) or (w.rv["k"] == "use" and "Stats" in w.field[1])) \
-                and not is_incremental_update(ctx, w):
-            # plain assignment (not += / -=) of a counter: a recomputation
-            if w.body.path not in apply_bodies(ctx):
-                stats_bodies.add(w.body.path)
+    # (b) in the load root: loader -> recompute stats -> replay on every path.  "Recompute" is a call of a function that
+    # sets the statistics (not += / -=) outside the apply step, or such an assignment in the load function itself
+    # (`state.stats = state.derive_stats(..)`)
+    points = ctx.recompute_points()
+    stats_bodies = set(points.keys())
     for lb in loaders:
         for (csite, how) in prog.callers_index().get(lb.path, []):
             b = csite.body
-            rec = [s for s in b.calls() if prog.local_target(s) is not None and prog.local_target(s).path in stats_bodies]
+            rec = [(s.bb, site_where(s)) for s in b.calls()
+                   if prog.local_target(s) is not None and prog.local_target(s).path in stats_bodies]
+            rec += [(bb, "%s:%d" % (b.file, line)) for (bb, line) in points.get(b.path, [])]
             rep = []
             for s in b.calls():
                 tg = prog.local_target(s)
@@ -508,16 +506,17 @@ def load_rebuilds(ctx, r, loaders, cbs):
             # ... or the loader does it itself before it returns (every Ok return of the loader lies behind the call)
             inside = False
             LV = ctx.flat(lb, stop=tuple(sorted(stats_bodies)))
-            lrec = [s for s in LV.calls() if prog.local_target(s) is not None and prog.local_target(s).path in stats_bodies]
+            lrec = [(s.bb, site_where(s)) for s in LV.calls()
+                    if prog.local_target(s) is not None and prog.local_target(s).path in stats_bodies]
             if lrec:
                 lrf = ctx.rf(LV)
                 oks = [bb for bb, kind in lrf.forwarded.items() if kind == "ok" or isinstance(kind, tuple)]
-                inside = bool(oks) and all(any(LV.dominates(x.bb, bb) for x in lrec) for bb in oks)
+                inside = bool(oks) and all(any(LV.dominates(x, bb) for x, _w in lrec) for bb in oks)
             r.check(bool(rec) or inside, "recompute-call", b, "statistics are recomputed %s (%s)" % (
                 "in %s" % b.path if rec else "by the loader before it returns",
-                ", ".join(site_where(s) for s in (rec or lrec))), "%s never recomputes the statistics after loading" % b.path)
+                ", ".join(w_ for _x, w_ in (rec or lrec))), "%s never recomputes the statistics after loading" % b.path)
             for s in rep:
-                ok = any(b.dominates(x.bb, s.bb) and b.dominates(csite.bb, x.bb) for x in rec) or \
+                ok = any(b.dominates(x, s.bb) and b.dominates(csite.bb, x) for x, _w in rec) or \
                     (inside and b.dominates(csite.bb, s.bb))
                 r.check(ok, "recompute-before-replay", b,
                         "load -> recompute -> replay (%s) on every path" % site_where(s),
